@@ -186,6 +186,71 @@ func NotifyData(r *R, typ uint16) abs.HB {
 	return Data(r, 0)
 }
 
+// KE makes a key exchange (group, public value) pair in which length and leading octets RELATE to the group the way
+// real values do: modulus length of the named MODP / ECP group, one octet more or less, a leading 0x00 "sign" octet
+// followed by an octet with the top bit set (the DER / big.Int habit), values >= p, all-zero and all-FF.
+func KE(r *R) (uint16, abs.HB) {
+	groups := []struct {
+		id  uint16
+		len int
+	}{{1, 96}, {2, 128}, {5, 192}, {14, 256}, {15, 384}, {16, 512}, {17, 768}, {18, 1024}, {19, 64}, {20, 96}, {21, 132}, {31, 32}}
+	g := groups[r.Intn(len(groups))]
+	if r.Chance(2, 3) {
+		g = groups[r.Pick(1, 3)] // the two groups the library implements
+	}
+	n := g.len + r.Pick(0, 0, 0, 1, 1, -1, 2)
+	d := abs.HB(r.Bytes(n))
+	switch r.Intn(6) {
+	case 0:
+		d[0] = 0
+		if n > 1 {
+			d[1] = byte(0x80 | r.Intn(128))
+		}
+	case 1:
+		d[0] = 0
+		if n > 1 {
+			d[1] = byte(r.Intn(128))
+		}
+	case 2:
+		for i := range d {
+			d[i] = 0xff
+		}
+	case 3:
+		for i := range d {
+			d[i] = 0
+		}
+		d[n-1] = byte(r.Pick(0, 1, 2))
+	}
+	return g.id, d
+}
+
+// AuthData / CertData: lengths and leading octets that go with the method / encoding.
+func AuthData(r *R, method uint8) abs.HB {
+	switch method {
+	case 1, 14: // RSA / digital signature
+		n := r.Pick(128, 256, 384, 512, 257)
+		d := abs.HB(r.Bytes(n))
+		if r.Bool() {
+			d[0] = 0
+		}
+		return d
+	case 2: // shared key MIC: prf output sizes
+		return DataN(r, r.Pick(16, 20, 32, 64))
+	}
+	return Data(r, 1)
+}
+
+func CertData(r *R, enc uint8) abs.HB {
+	if enc == 4 && r.Bool() { // X.509: DER SEQUENCE with a 2-octet length that fits (or is off by one from) the data
+		n := r.Pick(300, 1000, 4096)
+		d := abs.HB(r.Bytes(n))
+		l := n - 4 + r.Pick(0, 0, 1, -1)
+		d[0], d[1], d[2], d[3] = 0x30, 0x82, byte(l>>8), byte(l)
+		return d
+	}
+	return Data(r, 1)
+}
+
 // CPValue makes a configuration attribute value of the size the attribute type calls for (RFC 7296 3.15.1).
 func CPValue(r *R, typ uint16) abs.HB {
 	switch typ {
@@ -504,15 +569,21 @@ func payload(r *R, kind uint8) abs.Payload {
 	case abs.PSA:
 		return SA(r)
 	case abs.PKE:
+		if r.Bool() {
+			g, d := KE(r)
+			return abs.Payload{Kind: kind, KE: &abs.KE{Group: g, Data: d}}
+		}
 		return abs.Payload{Kind: kind, KE: &abs.KE{Group: uint16(r.Pick(2, 14, int(r.U16()))), Data: Data(r, 1)}}
 	case abs.PIDi, abs.PIDr:
 		id := &abs.ID{Type: uint8(r.Pick(1, 1, 2, 3, 5, 9, 11, int(r.Byte())))}
 		id.Data = IDData(r, id.Type)
 		return abs.Payload{Kind: kind, ID: id}
 	case abs.PCERT, abs.PCERTREQ:
-		return abs.Payload{Kind: kind, Cert: &abs.Cert{Enc: uint8(r.Pick(1, 4, 7, int(r.Byte()))), Data: Data(r, 1)}}
+		enc := uint8(r.Pick(1, 4, 4, 7, int(r.Byte())))
+		return abs.Payload{Kind: kind, Cert: &abs.Cert{Enc: enc, Data: CertData(r, enc)}}
 	case abs.PAUTH:
-		return abs.Payload{Kind: kind, Auth: &abs.Auth{Method: uint8(r.Pick(1, 2, 3, int(r.Byte()))), Data: Data(r, 1)}}
+		am := uint8(r.Pick(1, 2, 3, 14, int(r.Byte())))
+		return abs.Payload{Kind: kind, Auth: &abs.Auth{Method: am, Data: AuthData(r, am)}}
 	case abs.PNonce, abs.PVendor:
 		return abs.Payload{Kind: kind, Data: Data(r, 0)}
 	case abs.PNotify:
